@@ -74,16 +74,15 @@ where
                     };
                     acc
                 });
-        // Choose the group with the most members
-        if let Some((k, v)) = groups.iter().max_by_key(|c| c.1) {
-            if v > &1 {
-                // Found prefix is only useful if the group contains more than one member
-                k.to_vec()
-            } else {
-                vec![]
-            }
-        } else {
-            vec![]
+        // Choose the group with the most members. If several groups have the same number of
+        // members take the one that occurs first to be independent of the hash map's order.
+        match groups.values().max() {
+            // Found prefix is only useful if the group contains more than one member
+            Some(max) if *max > 1 => candidates_with_len_n
+                .iter()
+                .find(|c| groups.get(*c) == Some(max))
+                .map_or(vec![], |c| c.to_vec()),
+            _ => vec![],
         }
     }
 
